@@ -110,20 +110,16 @@ def run():
             c.count_nontrivial(json.dumps({k: v for k, v in e.items() if k not in ("runs", "outcome")}, sort_keys=True))
     if not c.replay_path:
         def neg(rel, mut, prefix):
-            src = next(e for e in evs if e["rel"] == rel and e["outcome"] == "ok" and e["m"] >= 3 and len(e["runs"][0]["outy"]) > 4)
-            e = copy.deepcopy(src)
-            mut(e)
-            c.add_negative(e, prefix)
+            c.negative_from(evs, lambda e: e["rel"] == rel and e["outcome"] == "ok" and e["m"] >= 3 and len(e["runs"][0]["outy"]) > 4, mut, prefix)
         def bump(run, idx):
             f = run["outy"][idx]
             run["outy"][idx] = [f[0] if f[0] else 1, f[1] + 3, f[2]]
         neg("affine", lambda e: bump(e["runs"][1], 1), "C07.commute_values")
         neg("linear", lambda e: bump(e["runs"][2], 1), "C07.linear")
         neg("weights", lambda e: bump(e["runs"][0], 1), "C07.weights_sum")
-        src = next(e for e in evs if e["rel"] == "local" and e["outcome"] == "ok" and e["m"] >= 5 and e["radius"] == 1 and e["j"] == 0)
-        e = copy.deepcopy(src)
-        bump(e["runs"][1], len(e["runs"][1]["outy"]) - 1)
-        c.add_negative(e, "C07.local")
+        c.negative_from(evs, lambda e: e["rel"] == "local" and e["outcome"] == "ok" and e["m"] >= 5 and e["radius"] == 1 and e["j"] == 0
+                        and len(e["runs"]) == 2 and len(e["runs"][1]["outy"]) > 4,
+                        lambda e: bump(e["runs"][1], len(e["runs"][1]["outy"]) - 1), "C07.local")
     c.rule = ("lattice: every series x {10 (quick) / 34 (thorough) unit changes (ay,by,cx,dx)} x 7 strategy/parameter combinations x n x "
               "a in {2,n}; perturbation of every single average by {+1,-3}; y, reversed y and their sum; unit vectors - relations proved "
               "on the model exactly (MC_RfaRel) and every tuple of runs replayed on the real code (plus cubic-spline variants); "
